@@ -330,7 +330,11 @@ impl ReactCache
         mut cache       : ResMut<ReactCache>,
         mut commands    : Commands,
         entity_reactors : Query<&EntityReactors>,
+        inserted        : Query<(), With<React<C>>>,
     ){
+        // do nothing if the insertion failed (e.g. the entity was despawned before the insertion was applied)
+        if !inserted.contains(entity) { return; }
+
         let rtype = EntityReactionType::Insertion(TypeId::of::<C>());
 
         // entity-specific reactors
